@@ -222,9 +222,11 @@ class StochasticSolver(ABC):
         main_time = time.perf_counter() - main_start
 
         info = {
-            "f_est_trace": fest_trace[0 : n_epoch + 1],
-            "step_trace": step_trace[0 : n_epoch + 1],
-            "time_trace": time_trace[0 : n_epoch + 1],
+            # Entry 0 is the start, then one entry per completed epoch (n_epoch is the
+            # 0-based index of the last epoch run)
+            "f_est_trace": fest_trace[0 : n_epoch + 2],
+            "step_trace": step_trace[0 : n_epoch + 2],
+            "time_trace": time_trace[0 : n_epoch + 2],
             "n_epoch": n_epoch,
         }
 
